@@ -109,6 +109,9 @@ Definition unassigned_report (width : N) (is_output : bool) (assigned reads : N)
 Inductive stmt :=
 | SWrite (v : N) (m : N)
 | SRead (v : N) (m : N)
+| SCond (v : N) (m : N)      (* read by an if / case condition or an instance input: the analyzer's
+                                eval_assign does not record it (IfStatement / CaseStatement /
+                                InstDeclaration::eval_assign never visit those expressions) *)
 | SIf (t e : list stmt)
 | SCase (arms : list (list stmt)) (dflt : list stmt).
 
@@ -147,6 +150,7 @@ Fixpoint run_stmt (base : tbl) (s : st) (x : stmt) {struct x} : st :=
     match b with [] => s | x :: tl => run_block base (run_stmt base s x) tl end in
   match x with
   | SRead v m => mkSt (s_tab s) (tor (s_ref s) v m) (s_asg s) (s_unc s) (s_rba s)
+  | SCond _ _ => s
   | SWrite v m =>
       let bad := check_refered (tget (s_ref s) v) (tget (s_asg s) v) m in
       mkSt (tor (s_tab s) v m) (s_ref s) (tor (s_asg s) v m) (s_unc s)
@@ -197,6 +201,7 @@ Fixpoint paths_stmt (x : stmt) {struct x} : list (list ev) :=
   match x with
   | SWrite v m => [[EW v m]]
   | SRead v m => [[ER v m]]
+  | SCond v m => [[ER v m]]
   | SIf t e => paths_block t ++ paths_block e
   | SCase arms dflt =>
       (fix go (arms : list (list stmt)) : list (list ev) :=
@@ -245,22 +250,98 @@ Definition may_read (b : list stmt) (v : N) : N :=
    process = one declaration: always_comb / assign (a block), always_ff (a block, no latch / rba
    rules), instance outputs (writes).  Multiple assignment between two processes at constant
    positions: the definite masks overlap. *)
-Definition multi_spec (procs : list (list stmt)) (v : N) : bool :=
-  (fix go (ps : list (list stmt)) (seen : N) : bool :=
-     match ps with
-     | [] => false
-     | p :: tl => let w := may_write p v in nz (N.land seen w) || go tl (N.lor seen w)
-     end) procs 0.
+Fixpoint multi_spec_go (v : N) (ps : list (list stmt)) (seen : N) : bool :=
+  match ps with
+  | [] => false
+  | p :: tl => let w := may_write p v in nz (N.land seen w) || multi_spec_go v tl (N.lor seen w)
+  end.
+Definition multi_spec (procs : list (list stmt)) (v : N) : bool := multi_spec_go v procs 0.
 
-(* the analyzer: per-declaration tables merged one after the other with check_conflict *)
-Definition multi_model (procs : list (list stmt)) (v : N) : bool :=
-  (fix go (ps : list (list stmt)) (acc : option entry) : bool :=
-     match ps with
-     | [] => false
-     | p :: tl =>
-         let w := may_write p v in
-         if N.eqb w 0 then go tl acc
-         else
-           let '(c, m) := table_merge acc (entry_new w false false) true true in
-           c || go tl (Some m)
-     end) procs None.
+(* the analyzer: per-declaration tables merged one after the other (merge_by_or_from with
+   check_conflict = process_level = true) *)
+Fixpoint multi_model_go (v : N) (ps : list (list stmt)) (acc : option entry) : bool :=
+  match ps with
+  | [] => false
+  | p :: tl =>
+      let w := may_write p v in
+      if N.eqb w 0 then multi_model_go v tl acc
+      else
+        let cm := table_merge acc (entry_new w false false) true true in
+        fst cm || multi_model_go v tl (Some (snd cm))
+  end.
+Definition multi_model (procs : list (list stmt)) (v : N) : bool := multi_model_go v procs None.
+
+(* ---------------------------------------------------------------- whole designs (end-to-end reference)
+   variables: (width, is_output); processes in declaration order *)
+Inductive pkind := PComb | PFf | PInst.
+Definition proc := (pkind * list stmt)%type.
+
+(* reads the analyzer records (SRead only), all paths *)
+Fixpoint recorded_reads_stmt (v : N) (x : stmt) {struct x} : N :=
+  let blk := fix blk (b : list stmt) : N :=
+    match b with [] => 0 | x :: tl => N.lor (recorded_reads_stmt v x) (blk tl) end in
+  match x with
+  | SRead v' m => if N.eqb v v' then m else 0
+  | SWrite _ _ | SCond _ _ => 0
+  | SIf t e => N.lor (blk t) (blk e)
+  | SCase arms d =>
+      N.lor ((fix go (a : list (list stmt)) : N := match a with [] => 0 | b :: tl => N.lor (blk b) (go tl) end) arms) (blk d)
+  end.
+Definition recorded_reads (v : N) (b : list stmt) : N :=
+  fold_right (fun x acc => N.lor (recorded_reads_stmt v x) acc) 0 b.
+
+Definition is_comb (k : pkind) : bool := match k with PComb => true | _ => false end.
+
+Definition or_over (f : proc -> N) (ps : list proc) : N := fold_right (fun p acc => N.lor (f p) acc) 0 ps.
+
+(* the program without the condition / instance-input reads *)
+Fixpoint strip_cond_stmt (x : stmt) {struct x} : list stmt :=
+  let blk := fix blk (b : list stmt) : list stmt :=
+    match b with [] => [] | x :: tl => strip_cond_stmt x ++ blk tl end in
+  match x with
+  | SCond _ _ => []
+  | SIf t e => [SIf (blk t) (blk e)]
+  | SCase arms d =>
+      [SCase ((fix go (a : list (list stmt)) : list (list stmt) :=
+                 match a with [] => [] | b :: tl => blk b :: go tl end) arms) (blk d)]
+  | x => [x]
+  end.
+Definition strip_cond (b : list stmt) : list stmt := flat_map strip_cond_stmt b.
+
+Record verdict := mkVerdict {
+  v_multi : bool;          (* multiple_assignment *)
+  v_unc : bool;            (* uncovered_branch *)
+  v_rba : bool;            (* unassign_variable: read before assign in an always_comb *)
+  v_rba_nocond : bool;     (* same, condition reads ignored *)
+  v_unas : bool            (* unassign_variable: module-level *)
+}.
+
+(* what the analyzer is expected to report *)
+Definition model_var (ps : list proc) (v : N) (w : N) (is_out : bool) : verdict :=
+  let assigned := N.land (gen_mask w) (or_over (fun p => may_write (snd p) v) ps) in
+  let reads := or_over (fun p => recorded_reads v (snd p)) ps in
+  let rba := existsb (fun p => is_comb (fst p) && existsb (N.eqb v) (s_rba (run_comb (snd p)))) ps in
+  mkVerdict (multi_model (map snd ps) v)
+            (existsb (fun p => is_comb (fst p) && existsb (N.eqb v) (s_unc (run_comb (snd p)))) ps)
+            rba rba
+            (unassigned_report w is_out assigned reads).
+
+(* the property *)
+Definition spec_var (ps : list proc) (v : N) (w : N) (is_out : bool) : verdict :=
+  let assigned := N.land (gen_mask w) (or_over (fun p => may_write (snd p) v) ps) in
+  let reads := if is_out then gen_mask w else or_over (fun p => may_read (snd p) v) ps in
+  mkVerdict (multi_spec (map snd ps) v)
+            (existsb (fun p => is_comb (fst p) && uncovered_spec (snd p) v) ps)
+            (existsb (fun p => is_comb (fst p) && rba_spec (snd p) v) ps)
+            (existsb (fun p => is_comb (fst p) && rba_spec (strip_cond (snd p)) v) ps)
+            (nz (N.land reads (N.lxor (gen_mask w) assigned))).
+
+Definition show (x : verdict) := (v_multi x, v_unc x, v_rba x, v_rba_nocond x, v_unas x).
+
+Definition design_verdicts (d : list (N * bool) * list proc) :=
+  let '(vars, ps) := d in
+  (fix go (vs : list (N * bool)) (i : N) :=
+     match vs with
+     | [] => []
+     | (w, o) :: tl => (show (model_var ps i w o), show (spec_var ps i w o)) :: go tl (i + 1)
+     end) vars 0.
